@@ -153,3 +153,26 @@ example (P : Prims) (O : OutPrims) (fs : FS) (env : Env) :
     ∃ pre it post, [tg nmIf [120], .text [10], tg nmAssign [], tg (endPrefix ++ nmIf) []] = pre ++ it :: post ∧ it.isText = false ∧
       (2 : Nat) = 1 + countNL (spell Delims.default pre) ∧ true = true :=
   run_spell_error_at_item P O {} fs 1 _ 1 env _ (by decide) (by decide) (by decide) (c07_ex_compile P O fs env)
+
+/-! ## The side condition "no `include` tag" is needed
+
+`{% include "f" %}` where the file `f` is `⏎⏎{{ y }}` (strict variables, `y` unbound): the error comes from the
+included file and carries ITS line — the include tag's line 1 plus the two newlines before the object — while
+the only token of the including source stands at line 1. -/
+def c07IncFs : FS := ⟨fun p => if p = [102] then .content [10, 10, 123, 123, 32, 121, 32, 125, 125] else .notExist, fun _ => none⟩
+
+theorem c07_inner : compileSource [] [10, 10, 123, 123, 32, 121, 32, 125, 125] 1 = .ok [.text 1 [10, 10], .obj 3 (.var [121])] := by rfl
+
+/-- **C07 (counterexample with an `include` tag).** The error's line is a line of the included file, not of a token of the source. -/
+theorem include_error_line (P : Prims) (O : OutPrims) :
+    run P O strictCfg c07IncFs 1 (spell Delims.default [tg nmInclude [34, 102, 34]]) 1 [] =
+      .err ⟨3, true, .other "undefinedVariable", .byCause⟩ ∧
+    ∀ t ∈ scan strictCfg.delims (spell Delims.default [tg nmInclude [34, 102, 34]]) 1, t.line ≠ 3 := by
+  refine ⟨?_, by decide⟩
+  rw [show Delims.default = Delims.ofList strictCfg.delims from rfl, run_spell P O strictCfg c07IncFs 1 _ 1 [] (by decide) (by decide)]
+  show runRoot P O strictCfg c07IncFs 1 [.incl 1 [34, 102, 34]] [] = _
+  have hp : parseExprSource [34, 102, 34] = .ok (.lit (.str [102])) := rfl
+  have hj : joinPath (dirPath []) [102] = [102] := by decide
+  simp [runRoot, frender, renderRoot, renderList, renderNode, wrapAt, wrapFailAt, M.mapFail, M.bind, M.pure, M.getEnv, M.ofRes, M.fail,
+    Prog.bind, Prog.mapFail, Prog.runPure, bind, pure, mkCtx, evaluate, eval, GoVal.unwrap, hp, Res.mapErr, incFuel, renderFileWith,
+    c07IncFs, hj, strictCfg, c07_inner, writeM, Env.get, GoVal.isNil, GoVal.toLiquid, wrapError]
